@@ -110,20 +110,20 @@ theorem step_purge (s : St) (k : Key) (i : Iid) (hm : s.mgr = .idle) (ht : s.tab
     by_cases h1 : k1 = k <;> simp [h1]
     exact hi.2.2.2 k1 i'
 
-theorem inv_step (s s' : St) (hi : Inv s) (hs : Step s s') : Inv s' := by
-  cases hs with
-  | callLock g k h => exact step_callLock s g k h hi
-  | rdvAcq g k h hm => exact step_rdvAcq s g k h hm hi
-  | mgrAcqGrant k hm h0 => exact step_mgrAcqGrant s k hm h0 hi
-  | mgrAcqQueue k hm h0 => exact step_mgrAcqQueue s k hm h0 hi
-  | gGetItem g k h => exact step_gGetItem s g k h hi
-  | rdvTok g i k k' b h hm => exact step_rdvTok s g i k k' b h hm hi
-  | callUnlock g k h => exact step_callUnlock s g k h hi
-  | rdvRel g k h hm => exact step_rdvRel s g k h hm hi
-  | mgrRelNone k hm h0 => exact step_mgrRelNone s k hm h0 hi
-  | mgrRelLast k hm h0 => exact step_mgrRelLast s k hm h0 hi
-  | mgrRelHand k hm h0 => exact step_mgrRelHand s k hm h0 hi
-  | purge k i hm ht h0 => exact step_purge s k i hm ht h0 hi
+theorem inv_step {b : Bool} (s s' : St) (hi : Inv s) (hs : Step b s s') : Inv s' := by
+  cases hs
+  case callLock g k h => exact step_callLock s g k h hi
+  case rdvAcq g k h hm => exact step_rdvAcq s g k h hm hi
+  case mgrAcqGrant k hm h0 => exact step_mgrAcqGrant s k hm h0 hi
+  case mgrAcqQueue k hm h0 => exact step_mgrAcqQueue s k hm h0 hi
+  case gGetItem g k h => exact step_gGetItem s g k h hi
+  case rdvTok g i k k' b h hm => exact step_rdvTok s g i k k' b h hm hi
+  case callUnlock g k h => exact step_callUnlock s g k h hi
+  case rdvRel g k h hm => exact step_rdvRel s g k h hm hi
+  case mgrRelNone k hm h0 => exact step_mgrRelNone s k hm h0 hi
+  case mgrRelLast k hm h0 => exact step_mgrRelLast s k hm h0 hi
+  case mgrRelHand k hm h0 => exact step_mgrRelHand s k hm h0 hi
+  case purge k i hm ht h0 => exact step_purge s k i hm ht h0 hi
 
 theorem inv_init (n : Nat) : Inv (St.init n) := by
   refine ⟨fun k => ?_, ?_, ?_, ?_⟩
@@ -142,7 +142,7 @@ theorem inv_init (n : Nat) : Inv (St.init n) := by
 
 inductive Reach (n : Nat) : St → Prop where
   | init : Reach n (St.init n)
-  | step (s s' : St) : Reach n s → Step s s' → Reach n s'
+  | step (b : Bool) (s s' : St) : Reach n s → Step b s s' → Reach n s'
 
 /-- C13 at model level: in every reachable state of every schedule, for any number of goroutines and keys,
 at most one goroutine is between Lock-return and Unlock-delivery on a key. -/
@@ -150,7 +150,7 @@ theorem mutex_exclusion (n : Nat) (s : St) (hr : Reach n s) (k : Key) : hold s k
   have : Inv s := by
     induction hr with
     | init => exact inv_init n
-    | step s s' _ hs ih => exact inv_step s s' ih hs
+    | step b s s' _ hs ih => exact inv_step s s' ih hs
   exact mutual_exclusion_of_inv s this k
 
 end Mx
